@@ -8,7 +8,7 @@ entry and exit points, completion rows (acyclic by construction).  spec.normaliz
 import random
 import zlib
 
-PROFILES = ("struct", "hist", "pseudo", "compl", "evh", "dfb", "dfm")
+PROFILES = ("struct", "hist", "pseudo", "compl", "evh", "dfb", "dfm", "ser")
 
 
 def rand_spec(profile, seed):
@@ -119,7 +119,7 @@ def rand_spec(profile, seed):
             M["kinds"][xp] = "exit_pt:" + xev
             exit_pts[len(M["regions"]) - 1] = (xp, xev)
         M["_explicit"], M["_entry_pts"], M["_exit_pts"] = explicit, entry_pts, exit_pts
-        if profile in ("hist", "pseudo") and shape[mi] > 0:
+        if profile in ("hist", "pseudo", "ser") and shape[mi] > 0:
             M["history"] = rnd.choice(["none", "always", "shallow:" + ",".join(rnd.sample(trig[:nev], rnd.randint(1, 2)))])
     for mi, M in enumerate(machines):
         pool = pools[mi]
@@ -229,6 +229,13 @@ def rand_spec(profile, seed):
                     fl = [f for f in ("F0", "F1", "F2") if rnd.random() < 0.25]
                     if fl:
                         M["state"].setdefault(s_, {})["flags"] = fl
+    if profile == "ser":
+        # Boost.Serialization (back / back11): some simple states carry serialisable data
+        for M in machines:
+            for reg in M["regions"]:
+                for s_ in reg:
+                    if not M["kinds"].get(s_) and rnd.random() < 0.3:
+                        M["state"].setdefault(s_, {})["data"] = True
     for M in machines:
         for k in ("_explicit", "_entry_pts", "_exit_pts"):
             M.pop(k, None)
@@ -236,17 +243,25 @@ def rand_spec(profile, seed):
             M.pop("state")
         if not M["kinds"]:
             M.pop("kinds")
-    return {"name": name, "events": events, "machines": machines}
+    sp = {"name": name, "events": events, "machines": machines}
+    if profile == "ser":
+        sp["serialize"] = True
+    return sp
 
 
 def variants(spec):
     """configurations a random spec is built for (back11 cannot compile sm-internal tables; back with favor_compile_time
     cannot compile a machine that has both completion rows and an sm-internal table: compile-time limits, not properties)"""
     v = ["B", "BC", "M", "MA", "MC"]
+    if spec.get("serialize"):
+        return ["B", "BC"]      # Boost.Serialization is offered by back / back11 only
     if any(":" in e for e in spec["events"] if isinstance(e, str)):
         return ["B", "M"]
     if any("cond_defer" in st for M in spec["machines"] for st in M.get("state", {}).values()) or spec["name"].startswith("rand_dfm"):
         return ["M", "MA", "MC"]    # deferral at any level / conditional deferral: backmp11       # base-class and Kleene triggers: run-time-speed policies with flat_fold dispatch (C18 quantifier)
+    # back11 does not compile sm-internal tables (compile-time limit); everything else it shares with back
+    if not any(M.get("internal") for M in spec["machines"]) and not any(isinstance(e, dict) for e in spec["events"]):
+        v.append("B11")
     for M in spec["machines"]:
         has_compl = any(" + " not in r.split("->")[0].split("[")[0].split("/")[0] for r in M["rows"])
         if has_compl and M.get("internal"):
